@@ -47,6 +47,13 @@ Definition peq (p q : fpt) : bool := (fst p =? fst q)%float && (snd p =? snd q)%
 Definition linf (p q : fpt) : float := fmax (fabs (fst p - fst q)) (fabs (snd p - snd q)).
 Definition dist2f (p q : fpt) : float := (fst p - fst q) * (fst p - fst q) + (snd p - snd q) * (snd p - snd q).
 Definition on_linef (a b : fpt) (lam : float) : fpt := (fst a + lam * (fst b - fst a), snd a + lam * (snd b - snd a)).
+(* |p - (a + lam (b - a))|^2 evaluated on the differences to a (translation invariant: the same textbook quantity as
+   dist2f p (on_linef a b lam), without forming the foot point in absolute coordinates, where a large common offset of the
+   coordinates would cost the specification itself ~1e-16 * offset of accuracy) *)
+Definition dist2_line (a b p : fpt) (lam : float) : float :=
+  let dx := (fst p - fst a) - lam * (fst b - fst a) in
+  let dy := (snd p - snd a) - lam * (snd b - snd a) in
+  dx * dx + dy * dy.
 
 Definition cmp : Type := (float * option float * float)%type.
 Definition cmp_ok (t : cmp) : bool :=
@@ -77,11 +84,11 @@ Definition seg_dist_spec (a b p : fpt) : float :=
   else
     let u := ((fst p - fst a) * (fst b - fst a) + (snd p - snd a) * (snd b - snd a)) / dist2f b a in
     let u := if (u <? 0)%float then 0 else if (1 <? u)%float then 1 else u in
-    fsqrt (dist2f p (on_linef a b u)).
+    fsqrt (dist2_line a b p u).
 (* textbook distance to the line through a and b: distance to the orthogonal projection *)
 Definition line_dist_spec (a b p : fpt) : float :=
   let u := ((fst p - fst a) * (fst b - fst a) + (snd p - snd a) * (snd b - snd a)) / dist2f b a in
-  fsqrt (dist2f p (on_linef a b u)).
+  fsqrt (dist2_line a b p u).
 
 (* ---- per-kind domain, comparisons (agree), predicate (holds) ---- *)
 Definition short_dom (P : list fpt) (a b : fpt) : bool :=
@@ -92,7 +99,7 @@ Definition short_holds (P : list fpt) (a b : fpt) (out : option (list float)) : 
     (1%Z, olist_ok (length P) out notnan);
     (2%Z, olist_ok (length P) out ge0);
     (3%Z, olist2 P out (fun p v => f_close 1e-9 at_ (seg_dist_spec a b p) v));
-    (4%Z, olist2 P out (fun p v => forallb (fun lam => (v <=? fsqrt (dist2f p (on_linef a b lam)) * (1 + 1e-9) + at_)%float)
+    (4%Z, olist2 P out (fun p v => forallb (fun lam => (v <=? fsqrt (dist2_line a b p lam) * (1 + 1e-9) + at_)%float)
                                            [0; 0.25; 0.5; 0.75; 1]))
   ].
 Definition perp_dom (P : list fpt) (a b : fpt) : bool :=
@@ -103,7 +110,7 @@ Definition perp_holds (P : list fpt) (a b : fpt) (out : option (list float)) : Z
     (1%Z, olist_ok (length P) out notnan);
     (2%Z, olist_ok (length P) out ge0);
     (3%Z, olist2 P out (fun p v => f_close 1e-9 at_ (line_dist_spec a b p) v));
-    (4%Z, olist2 P out (fun p v => forallb (fun lam => (v <=? fsqrt (dist2f p (on_linef a b lam)) * (1 + 1e-9) + at_)%float)
+    (4%Z, olist2 P out (fun p v => forallb (fun lam => (v <=? fsqrt (dist2_line a b p lam) * (1 + 1e-9) + at_)%float)
                                            [-1; 0; 0.5; 1; 2]))
   ].
 Definition pz : fpt := (0, 0).
